@@ -943,6 +943,7 @@ class DirectorHandler:
                 vol_paths=vol_paths,
                 ran_concurrently=self.scheduler.ran_concurrently,
             )
+            self.executor.note_amended_inputs(job_i, step)
         # The step is still running and may write the new outputs as soon as this call returns,
         # so their directories are created here rather than when the step was dispatched.
         self.workflow.create_dirs(Path(path).parent for path in chain(out_paths, vol_paths))
@@ -954,6 +955,7 @@ class DirectorHandler:
                     file = self.workflow.find(File, path)
                     if file.get_state() not in (FileState.CONFIRMED, FileState.BUILT):
                         unavailable.add(path)
+                self.executor.note_amended_inputs(job_i, step)
         carry_on = len(unavailable) == 0 and len(unfresh) == 0
         if not carry_on:
             self.executor.defer(job_i, unavailable=unavailable, unfresh=unfresh)
